@@ -143,3 +143,38 @@ Example C12_inner_loop_example :
   (forall k, k < 5 -> k mod 2 < 2) /\ deal 2 (fun k => k mod 2) [1; 2; 3; 4; 5]%Z = [[1; 3; 5]; [2; 4]]%Z /\
   inner_loop_value Z.add 0%Z 2 (fun k => k mod 2) [1; 2; 3; 4; 5]%Z = 15%Z.
 Proof. split; [intros k _; apply Nat.mod_upper_bound; discriminate|]. split; reflexivity. Qed.
+
+(* (vii) The guard of the bias loop: whether the module takes the parallel loop (any order of its items) or, because an
+   active bias shares data with replicas (biases_need_main_thread), the straight loop on the main thread, the store is
+   that of "script task, then the active biases in order". *)
+Theorem C12_bias_loop_any_mode : forall (need_main_thread : bool) (c : cfg) (t : nat) (ob : list nat) (s : store),
+  Permutation ob (seq 0 (n_bias_items c t)) ->
+  forall l, run loc_eqb (bias_loop_items need_main_thread c t ob) s l =
+            run loc_eqb ((if c_use_script c && negb (c_script_after c) then script_items c else []) ++ map bias_item (active_biases t (c_biases c))) s l.
+Proof. exact bias_loop_any_mode. Qed.
+Print Assumptions C12_bias_loop_any_mode.
+
+(* (viii) Output: files are written by the serial phases from the store, which is schedule independent (iii).  The log
+   under any schedule is a REARRANGEMENT of the serial log (same lines, same multiplicities); the property text fixes the
+   indentation of a line (v), not an order between the messages of items that run concurrently, and the check compares
+   logs as multisets of lines accordingly. *)
+Theorem C12_log_is_rearrangement : forall (A : Type) (msgs : list (list A)) (order : list nat),
+  Permutation order (seq 0 (length msgs)) -> Permutation (log_of msgs order) (log_of msgs (seq 0 (length msgs))).
+Proof. exact @log_rearrangement. Qed.
+Print Assumptions C12_log_is_rearrangement.
+
+Example C12_log_example : log_of [[11; 12]; [21]; []] [1; 2; 0] = [21; 11; 12] /\ Permutation [1; 2; 0] (seq 0 3).
+Proof.
+  split; [reflexivity|]. apply (perm_trans (l' := [1; 0; 2])); [apply perm_skip; apply perm_swap|apply perm_swap].
+Qed.
+
+(* (ix) Shared accumulators updated under the SMP lock (the error word: (iv); the citation counters of
+   colvarmodule::usage, incremented by every cvm::rotation constructed during an evaluation): each item contributes an
+   element of a commutative monoid; the result does not depend on the order in which the items take the lock.  That the
+   updates ARE under the lock is a fact about the C++ explored with ThreadSanitizer (it was false for the citation
+   counters before `fix: citation counters were updated without synchronisation ...`). *)
+Theorem C12_locked_accumulator_order_independent : forall (M : Type) (op : M -> M -> M) (e : M),
+  (forall a b c, op a (op b c) = op (op a b) c) -> (forall a b, op a b = op b a) -> (forall a, op e a = a) ->
+  forall (l l' : list M), Permutation l l' -> msum op e l = msum op e l'.
+Proof. exact locked_accumulator_order_independent. Qed.
+Print Assumptions C12_locked_accumulator_order_independent.
